@@ -147,21 +147,29 @@ def sink_configs(tier):
 
 def sink_local_failures():
     """sends that fail locally (topic longer than 65535 bytes: encoder error; packet larger than the peer's Maximum
-    Packet Size) with a caller-chosen identifier, followed by a send that uses the same identifier again"""
+    Packet Size; packet id in use) - ordinary and streamed publishes, with a caller-chosen identifier -, followed by
+    sends that use the same identifier again and by ordinary sends: a local failure must not make later sends fail"""
     runs = []
     for ver in (3, 5):
         for role in ("server", "client"):
-            for kind in ("q1", "q2"):
-                for bad in ("topic", "size"):
-                    if bad == "size" and ver == 3:
+            for kind in ("q1", "q2", "stream1"):
+                for bad in ("topic", "size", "idinuse"):
+                    if bad == "size" and (ver == 3 or kind == "stream1"):
                         continue
                     cfg = dict(role=role, ver=ver, max_send=4, gate_pub=1)
                     hs = {"rm": 4, "mps": 64} if ver == 5 else None
                     cmds = [handshake(role, ver, connack=hs, connect=hs)]
                     first = {"c": "send", "s": 1, "k": kind, "id": 7}
-                    first.update({"topic": "x" * 70000} if bad == "topic" else {"plen": 200})
+                    if kind == "stream1":
+                        first["plen"] = 6
+                    if bad == "topic":
+                        first["topic"] = "x" * 70000
+                    elif bad == "size":
+                        first["plen"] = 200
+                    else:
+                        cmds += [{"c": "send", "s": 9, "k": "q1", "id": 7}, {"c": "poll", "s": 9}]
                     cmds += [first, {"c": "poll", "s": 1},
-                             {"c": "send", "s": 2, "k": kind, "id": 7}, {"c": "poll", "s": 2},
+                             {"c": "send", "s": 2, "k": "q1" if kind == "stream1" else kind, "id": 0 if bad == "idinuse" else 7}, {"c": "poll", "s": 2},
                              {"c": "send", "s": 3, "k": "q1", "id": 0}, {"c": "poll", "s": 3},
                              {"c": "settle"}]
                     runs.append(dict(cfg=cfg, cmds=cmds, src="local_failure"))
